@@ -27,6 +27,7 @@ import (
 	"sort"
 	"strconv"
 	"strings"
+	"time"
 
 	"github.com/trzsz/trzsz-go/trzsz"
 )
@@ -391,7 +392,23 @@ func genProc(c *ctx) {
 	leaked := false
 	for _, skip := range []int{0, 1} {
 		dir, _ := os.MkdirTemp("", "verif_proc")
-		errText, elapsed, left := trzsz.VerifSendToSilentPeer(dir, 3<<20, 2, skip, 1000)
+		var errText string
+		var elapsed time.Duration
+		var left []string
+		procDone := make(chan struct{})
+		go func() {
+			errText, elapsed, left = trzsz.VerifSendToSilentPeer(dir, 3<<20, 2, skip, 1000)
+			close(procDone)
+		}()
+		select {
+		case <-procDone:
+		case <-time.After(30 * time.Second):
+			c.count(fmt.Sprintf("silent-peer:skip=%d:hung", skip))
+			c.violate("silent-peer-hang", "the sender never returned although the peer fell silent (timeout 2 s, waited 30 s)",
+				fmt.Sprintf("VerifSendToSilentPeer(size=3MiB, timeout=2s, peer silent from DATA frame %d)", skip+1))
+			leaked = true
+			continue
+		}
 		os.RemoveAll(dir)
 		c.count(fmt.Sprintf("silent-peer:skip=%d:err=%q:left=%d", skip, errText, len(left)))
 		if errText == "" {
